@@ -216,3 +216,47 @@ pub fn transitions(tz: &Tz) -> Vec<i64> {
     }
     out
 }
+
+/// Timestamp texts around every 2021 offset transition of the 18 alphabet zones: wall-clock times in
+/// the skipped hour, the repeated hour and next to them, each spelled with the offset before the
+/// transition, the offset after it, and an offset the zone never has; as `<RFC 3339> <City>`.
+/// Returns (rfc3339 text, city, instant the RFC 3339 part denotes).
+pub fn transition_texts() -> Vec<(String, String, i64)> {
+    let mut out = vec![];
+    for z in crate::model::universe::ZONES {
+        let tz: Tz = z.parse().unwrap();
+        let city = crate::model::v::city_of(z);
+        let trans: Vec<i64> = transitions(&tz).into_iter().filter(|t| (1_609_459_200..1_640_995_200).contains(t)).collect();
+        let mut points: Vec<i64> = trans.clone();
+        if points.is_empty() {
+            points.push(1_625_097_600);
+        }
+        for t in points {
+            let (before, after) = (offset_at(&tz, t - 1), offset_at(&tz, t));
+            for off in [before, after, before - 3600, 0, 20_700] {
+                // local wall clocks from one hour before to one hour after the change, both readings
+                for wall_shift in [-3600i64, -1800, -1, 0, 1, 1800, 3599, 3600] {
+                    let local = t + before as i64 + wall_shift; // wall clock as a pseudo-instant
+                    let secs = local - off as i64;
+                    out.push((rfc3339_text(secs, 0, off, 0, ""), city.clone(), secs));
+                }
+            }
+        }
+    }
+    out
+}
+
+/// the zone a city name (Haystack zone name) designates, for the zones in the model
+pub fn zone_of_city(city: &str) -> Option<Tz> {
+    static MAP: std::sync::OnceLock<std::collections::BTreeMap<String, Tz>> = std::sync::OnceLock::new();
+    let m = MAP.get_or_init(|| {
+        let mut m = std::collections::BTreeMap::new();
+        for z in in_model_zones() {
+            if let Ok(tz) = z.parse::<Tz>() {
+                m.insert(crate::model::v::city_of(&z), tz);
+            }
+        }
+        m
+    });
+    m.get(city).copied()
+}
